@@ -219,6 +219,9 @@ func VerifC12_buildGapsAscending() {
 // Order, all mixes of pending user acknowledgements and gap ranges (DESIGN §6 item 4).
 func VerifC12_buildMixedAscending() {
 	nEnt, nGap := verifC12N()
+	if !verifThorough() {
+		nEnt, nGap = 2, 2 // the interleaving of sorted acks and gaps forks per comparison
+	}
 	verifC12Build(1+verifChoose(nEnt), 1+verifChoose(nGap), verifChoose(2) == 1, "acknowledgement batches mixing user acks and gaps are strictly ascending and non-overlapping", true)
 }
 
